@@ -177,8 +177,7 @@ package typed
 //@   ensures old(w.err) != nil ==> w.err == old(w.err) && w.remaining == old(w.remaining)
 //@   ensures old(w.err) == nil && len(in) > len(old(w.remaining)) ==> w.err == ErrBufferFull && w.remaining == old(w.remaining)
 //@   ensures old(w.err) == nil && len(in) <= len(old(w.remaining)) ==> w.err == nil && w.remaining == old(w.remaining)[len(in):]
-//@   ensures old(w.err) == nil && len(in) <= len(old(w.remaining)) ==>
-//@             forall j int :: 0 <= j && j < len(in) ==> u8at(old(w.remaining), j) == old(u8at(in, j))
+//@   ensures old(w.err) == nil && len(in) <= len(old(w.remaining)) ==> samebytes(old(w.remaining), 0, old(in), 0, len(in))
 //@   property C01 C06 C18
 
 //@ func (w *WriteBuffer) WriteUint16(n uint16)
@@ -298,14 +297,18 @@ package typed
 //@   requires ref == nil || len(ref) >= 1
 //@   modifies elems(ref)
 //@   ensures ref != nil ==> u8at(ref, 0) == b
+//@   ensures samebytes(ref, 1, old(ref), 1, len(ref) - 1)
 //@   property C01
 
 //@ func (ref Uint16Ref) Update(n uint16)
 //@   requires ref == nil || len(ref) >= 2
 //@   modifies elems(ref)
 //@   ensures ref != nil ==> be16(ref, 0) == n
+//@   ensures samebytes(ref, 2, old(ref), 2, len(ref) - 2)
 //@   property C01
 
 //@ func (ref BytesRef) Update(b []byte)
 //@   modifies elems(ref)
+//@   ensures len(b) <= len(ref) ==> samebytes(ref, 0, old(b), 0, len(b))
+//@   ensures len(b) > len(ref) ==> samebytes(ref, 0, old(b), 0, len(ref))
 //@   property C01 C02
